@@ -488,7 +488,7 @@ fn json_vals(thorough: bool) -> Vec<Val> {
         j("number-big", JT::Arr(vec![JT::num(1e308), JT::num(9007199254740993.0), JT::num(5e-324)])),
         j("array-100", JT::Arr((0..100).map(|i| JT::num(i as f64)).collect())),
     ];
-    for n in [900usize, 1500, 4100, 9000] {
+    for n in [900usize, 1500, 4100, 9000, 20000] {
         v.push(j(&format!("long-string-{n}"), JT::obj(vec![("s", JT::s(&ascii_of(n, 9)))])));
     }
     if thorough {
@@ -783,6 +783,8 @@ fn types(thorough: bool) -> Vec<Ty> {
     add("vector(70)", "VECTOR(70)", vector_vals(70), 0);
     add("vector(300)", "VECTOR(300)", vector_vals(300), 0);
     add("vector(1536)", "VECTOR(1536)", vector_vals(1536), 1);
+    // 16.8 KB: larger than a page, needs TOAST
+    add("vector(4200)", "VECTOR(4200)", vector_vals(4200).into_iter().filter(|v| ["null", "typical", "ramp-2"].contains(&v.class.as_str())).collect(), 0);
     let p = |class: &str, v: OV| Val::new(class, None, Some(v.clone()), v);
     add("macaddr", "MACADDR", vec![Val::both("null", "NULL", OV::Null), p("typical", OV::MacAddr([1, 2, 3, 4, 5, 6])), p("all-zero", OV::MacAddr([0; 6])), p("all-f", OV::MacAddr([0xFF; 6]))], 0);
     add(
@@ -1391,10 +1393,12 @@ fn multi_hists(thorough: bool) -> Vec<Hist> {
     }
     let mut v = Vec::new();
     // shortest histories first
+    // quick tier: the two INSERTs use the inline and the one-chunk size only
+    let ins_sz: Vec<usize> = if thorough { sz.clone() } else { vec![10, 1001] };
     for u in &upds {
         for align in 0..3u8 {
-            for &a in &sz {
-                for &b in &sz {
+            for &a in &ins_sz {
+                for &b in &ins_sz {
                     v.push(Hist { align, ins: [a, b], upd: u.clone() });
                 }
             }
